@@ -1,6 +1,10 @@
 import ModVerif.Drv.MainLoop
 import ModVerif.Drv.Modfile
 import ModVerif.Drv.GenModfile
+import ModVerif.Drv.LexOps
 open ModVerif.Drv
 
-def main : IO Unit := runMain [("modfile", Modfile.handle), ("gmodfile", GenModfile.handle)]
+def modfileH : Handler := fun op args => (LexOps.handleModel op args) <|> (Modfile.handle op args)
+def gmodfileH : Handler := fun op args => (LexOps.handleGen op args) <|> (GenModfile.handle op args)
+
+def main : IO Unit := runMain [("modfile", modfileH), ("gmodfile", gmodfileH)]
